@@ -14,7 +14,7 @@
    aggregate columns depend only on the consolidated argument rows (what C14 proves of the real aggregates).
    The vector of COUNT and SUM(Int) models used by the executable tie satisfies it
    (C16_count_sum_net_determined), which gives the closed statement C16_final_count_sum_partial. *)
-From Octo Require Import GroupBy TriggerProofs GroupByProofs ChangelogLemmas.
+From Octo Require Import GroupBy TriggerProofs GroupByProofs GroupByProofs2 TriggerSpecProofs2 ChangelogLemmas.
 
 (* For EVERY trigger configuration (any list of COUNTING n / ON WATERMARK / ON END OF STREAM, any n, in
    any order, with repetitions; the empty list), every input script of any length (records, retractions,
@@ -40,6 +40,35 @@ Proof.
            (fun S => valid_changelog_pvalid _ (VD S)) T).
 Qed.
 Print Assumptions C16_final_partial.
+
+(* The assumption about the delivered order, discharged from the input alone: if all records of one row carry
+   one event time (a retraction is stamped like the insertion it retracts; row_timed) and event times lie between
+   Go's zero time and WatermarkMaxValue, the EventTimeBuffer keeps every row's records in their input order
+   (C16_buffer_keeps_row_order), so what it delivers is a valid changelog and the final result is the grouping
+   of the input for EVERY trigger configuration.  (The finding's inputs are exactly those violating row_timed.) *)
+Theorem C16_final_row_timed :
+  forall (ST : Type) (rinit : ST) (radd : bool -> list value -> ST -> ST) (rout : ST -> list value)
+         (nk na : nat) (kti : option nat) (trigs : list tkind) (inp : list event),
+  net_determined ST rinit radd rout nk na ->
+  has_arity nk na (records inp) ->
+  valid_changelog (records inp) = true ->
+  row_timed (records inp) ->
+  (forall r, In r (records inp) -> zero_ns <= et r <= max_wm) ->
+  forall row, consolidate (records (gb_run ST rinit radd rout wless nk kti trigs inp)) row
+              = bag_group ST rinit radd rout nk (records inp) row.
+Proof.
+  intros ST rinit radd rout nk na kti trigs inp HR HK V RT B.
+  apply (gb_final ST rinit radd rout nk kti na HR trigs inp HK (valid_changelog_pvalid _ V)).
+  - intros _. apply (delivered_valid_of_row_timed inp (valid_changelog_pvalid _ V) RT B).
+  - intros r Hr. apply (proj2 (B r Hr)).
+Qed.
+Print Assumptions C16_final_row_timed.
+
+Theorem C16_buffer_keeps_row_order : forall es x, row_timed (records es) ->
+  (forall r, In r (records es) -> zero_ns <= et r <= max_wm) ->
+  cls x (records (etb_run_finish es)) = cls x (records es).
+Proof. exact etb_keeps_row_order. Qed.
+Print Assumptions C16_buffer_keeps_row_order.
 
 (* With no TRIGGER clause or ON END OF STREAM alone (SimpleGroupBy, no buffer) the statement is unconditional. *)
 Theorem C16_final_simple :
@@ -83,6 +112,35 @@ Theorem C16_output_is_current_rows :
               = bag_inc ST rinit radd rout nk (records delivered) row.
 Proof. exact ctg_final. Qed.
 Print Assumptions C16_output_is_current_rows.
+
+(* The two implementations agree.  On one and the same delivered stream SimpleGroupBy and
+   CustomTriggerGroupBy (with ANY non-empty trigger configuration, in particular [ON END OF STREAM]) have the
+   same consolidated output, for every input whatsoever (valid or not): both are one row per running group. *)
+Theorem C16_two_impls_same_stream :
+  forall (ST : Type) (rinit : ST) (radd : bool -> list value -> ST -> ST) (rout : ST -> list value)
+         (nk : nat) (kti : option nat) (trigs : list tkind) (es : list event),
+  trigs <> [] -> has_keys nk (records es) ->
+  forall row, consolidate (records (ctg_run ST rinit radd rout wless nk kti trigs es)) row
+              = consolidate (records (sgb_run ST rinit radd rout nk es)) row.
+Proof. exact two_impls_same_stream. Qed.
+Print Assumptions C16_two_impls_same_stream.
+
+(* ... and as the planner wires them (CustomTriggerGroupBy behind its EventTimeBuffer, SimpleGroupBy without),
+   under the hypotheses of C16_final_partial. *)
+Theorem C16_two_impls :
+  forall (ST : Type) (rinit : ST) (radd : bool -> list value -> ST -> ST) (rout : ST -> list value)
+         (nk na : nat) (kti : option nat) (trigs : list tkind) (inp : list event),
+  net_determined ST rinit radd rout nk na -> trigs <> [] ->
+  has_arity nk na (records inp) -> valid_changelog (records inp) = true ->
+  valid_changelog (records (etb_run_finish inp)) = true ->
+  (forall r, In r (records inp) -> et r <= max_wm) ->
+  forall row, consolidate (records (ctg_run ST rinit radd rout wless nk kti trigs (etb_run_finish inp))) row
+              = consolidate (records (sgb_run ST rinit radd rout nk inp)) row.
+Proof.
+  intros ST rinit radd rout nk na kti trigs inp HR NE HA V VD T.
+  apply (two_impls ST rinit radd rout nk kti na trigs inp HR NE HA (valid_changelog_pvalid _ V) (valid_changelog_pvalid _ VD) T).
+Qed.
+Print Assumptions C16_two_impls.
 
 (* The event-time buffer in front of the node hands on exactly the records it received. *)
 Theorem C16_buffer_keeps_the_bag : forall es, (forall r, In r (records es) -> et r <= max_wm) ->
